@@ -1,0 +1,22 @@
+//go:build verif
+
+package crypki
+
+import (
+	"time"
+
+	"github.com/theparanoids/ysshra/internal/backoff"
+)
+
+// VerifBackoff exposes internal/backoff.(*Config).Backoff to the verification
+// harness, which lives in another module and cannot import an internal package.
+func VerifBackoff(base time.Duration, mult float64, max time.Duration, jitter float64, attempt uint) time.Duration {
+	c := backoff.Config{BaseDelay: base, Multiplier: mult, MaxDelay: max, Jitter: jitter}
+	return c.Backoff(attempt)
+}
+
+// VerifDefaultBackoff returns the fields of backoff.DefaultConfig.
+func VerifDefaultBackoff() (base time.Duration, mult float64, max time.Duration, jitter float64) {
+	d := backoff.DefaultConfig
+	return d.BaseDelay, d.Multiplier, d.MaxDelay, d.Jitter
+}
